@@ -36,6 +36,7 @@ var scenarios = []simcore.Scenario{
 	{Name: "transfer-pipelined", Weight: 2, Run: runPipelined},
 	{Name: "cluster-measure", Weight: 1, Run: runClusterMeasure},
 	{Name: "cluster-stream", Weight: 1, Run: runClusterStream},
+	{Name: "cluster-trace", Weight: 1, Run: runClusterTrace},
 }
 
 // ---- what is shipped
